@@ -306,6 +306,18 @@ CASES = [
     ("hashes", "pub fn f(a: ByteArray) -> Data { let r: Data = [builtin.sha2_256(a), builtin.blake2b_256(a), builtin.sha3_256(a)]  r }", [
         ([B("")], L(B("e3b0c44298fc1c149afbf4c8996fb92427ae41e4649b934ca495991b7852b855"), B("0e5751c026e543b2e8ab2eb06099daa1d1e5df47778f7787faab45cdf12fe3a8"), B("a7ffc6f8bf1ed76651c14756a061d662f580ff4de43b49fa82d80a4b80f8434a"))),
     ]),
+    ("curried_builtin_three_instances", "fn g5(x: a) -> a { when (builtin.slice_bytearray(if True { 11 } else { 256 }, 2, #\"\"), 1) is { _p -> x } }\npub fn f(y: Int) -> Data { let r: Data = (g5(y), g5(#\"\"), g5(Void))  r }", [
+        ([I(1)], L(I(1), B(""), C(0))),
+    ], "F5"),
+    ("list_clauses_no_wildcard", "pub fn f(xs: List<Int>) -> Data { let r: Data = when xs is { [7, 8, ..] -> 1\n [9, ..] -> 2\n [_, _, ..] -> 4\n [_] -> 3\n [] -> 0 }  r }", [
+        ([L(I(7), I(8))], I(1)), ([L(I(9))], I(2)), ([L(I(1), I(2))], I(4)), ([L(I(1))], I(3)), ([L()], I(0)), ([L(I(9), I(1))], I(2)),
+    ], "F7"),
+    ("failing_builtin_in_dead_branch", "pub fn f(x: Bool) -> Data { let r: Data = if x { builtin.slice_bytearray(18446744073709551616, 1, #\"96\") } else { #\"\" }  r }", [
+        ([F], B("")), ([T], ABORT),
+    ], "F8"),
+    ("nested_list_tail_binding", "pub fn f(xs: List<List<Int>>) -> Data { let r: Data = when xs is { [_, []] -> 1\n [[a, ..b], [c, ..], ..] -> a + c + fold(b, 0, fn(x, n) { x + n })\n _ -> 4 }  r }", [
+        ([L(L(I(5), I(-6)), L(I(8)), L(I(-2)))], I(7)), ([L(L(I(5)), L(I(8)))], I(13)), ([L(L(I(5)), L())], I(1)), ([L()], I(4)),
+    ], "F9"),
     ("string_internal", "pub fn f(a: Int) -> Data { let s = if a > 0 { @\"pos\" } else { @\"neg\" }  let r: Data = s == @\"pos\"  r }", [([I(1)], T), ([I(0)], F)]),
 ]
 
